@@ -1016,6 +1016,64 @@ static int mode_opsym(int cases)
     return 0;
 }
 
+// ---------------------------------------------------------------------------------------------- the whole cycle against the concrete model
+// one private cycle of a real solver object on small hierarchies, with everything the Lean model GMGModel/Concrete.lean needs to
+// execute the SAME cycle from the code-level models: per level the grid, the Jacobian / coefficient samples and the level's
+// right-hand side; the start iterate; the result
+static void emit_level_of(const char* tag, int lvl, const DomainGeometry& geo, const DensityProfileCoefficients& coef, const PolarGrid& g, bool dirbc, const Vector<double>& rhs)
+{
+    int nr = g.nr(), nt = g.ntheta();
+    std::vector<double> J((size_t)nr * nt * 4), al(nr), be(nr), f((size_t)nr * nt);
+    for (int i = 0; i < nr; i++) {
+        double r = g.radius(i);
+        al[i] = coef.alpha(r);
+        be[i] = coef.beta(r);
+        for (int j = 0; j < nt; j++) {
+            double th = g.theta(j), sn = sin(th), cs = cos(th);
+            size_t b = ((size_t)i * nt + j) * 4;
+            J[b] = geo.dFx_dr(r, th, sn, cs); J[b + 1] = geo.dFy_dr(r, th, sn, cs); J[b + 2] = geo.dFx_dt(r, th, sn, cs); J[b + 3] = geo.dFy_dt(r, th, sn, cs);
+            f[(size_t)i * nt + j] = rhs.size() > 0 ? rhs[g.index(i, j)] : 0.0;
+        }
+    }
+    printf("%s lvl=%d nr=%d nt=%d nc=%d bc=%d geo=- coef=- radii=%s angles=%s J=%s alpha=%s beta=%s rhs=%s\n", tag, lvl, nr, nt, g.numberSmootherCircles(), (int)dirbc, hexvec(g.radii()).c_str(),
+           hexvec(g.angles()).c_str(), hexvec(J).c_str(), hexvec(al).c_str(), hexvec(be).c_str(), hexvec(f).c_str());
+}
+static int mode_concrete(int cases)
+{
+    Rng rng(seed_from_env());
+    for (int c = 0; c < cases; c++) {
+        int L = c % 3 == 2 ? 3 : 2;
+        int kind = rng.range(0, 2), extrap = rng.range(0, 1), nu1 = rng.range(0, 2), nu2 = rng.range(0, 2);
+        bool fgs = extrap && rng.coin(0.3);
+        Opts o = base_opts(rng, L == 2 ? 3 : 4);
+        o.set("ntheta_exp", L == 2 ? 4 : 4);
+        o.set("maxLevels", L); o.set("preSmoothingSteps", nu1); o.set("postSmoothingSteps", nu2); o.set("multigridCycle", kind);
+        o.set("extrapolation", extrap ? (fgs ? 2 : 1) : 0); o.set("FMG", 0); o.set("maxOpenMPThreads", 1);
+        o.set("cacheDensityProfileCoefficients", 1); o.set("cacheDomainGeometry", 1);
+        GMGPolar g;
+        o.apply(g);
+        g.setup();
+        GMGPolarVerif v(g);
+        if (v.levels() != L) { printf("SKIP levels=%d wanted=%d\n", v.levels(), L); continue; }
+        printf("CON case=%d L=%d kind=%d extrap=%d fgs=%d nu1=%d nu2=%d strat=%s opts=[%s]\n", c, L, kind, extrap, (int)v.fgs(), nu1, nu2, o.kv["stencilDistributionMethod"].c_str(), o.str().c_str());
+        for (int l = 0; l < L; l++) emit_level_of("CLV", l, v.geo(), v.coef(), v.level(l).grid(), g.DirBC_Interior(), v.level(l).rhs());
+        Level& l0 = v.level(0);
+        const PolarGrid& g0 = l0.grid();
+        int n = g0.numberOfNodes();
+        for (int l = 0; l < L; l++) { fill_garbage(rng, v.level(l).residual()); if (l > 0) { fill_garbage(rng, v.level(l).error_correction()); fill_garbage(rng, v.level(l).solution()); } }
+        std::vector<double> x0(n);
+        int kindx = rng.range(0, 1);
+        for (auto& q : x0) q = kindx ? rng.uniform(-1.0, 1.0) : (double)rng.range(-3, 3);
+        for (int i = 0; i < g0.nr(); i++) for (int j = 0; j < g0.ntheta(); j++) l0.solution()[g0.index(i, j)] = x0[(size_t)i * g0.ntheta() + j];
+        v.cycle(kind, extrap, 0, l0.solution(), l0.rhs(), l0.residual());
+        std::vector<double> out(n);
+        for (int i = 0; i < g0.nr(); i++) for (int j = 0; j < g0.ntheta(); j++) out[(size_t)i * g0.ntheta() + j] = l0.solution()[g0.index(i, j)];
+        printf("COUT x0=%s out=%s\n", hexvec(x0).c_str(), hexvec(out).c_str());
+    }
+    printf("end\n");
+    return 0;
+}
+
 int main(int argc, char** argv)
 {
     std::string mode = argc > 1 ? argv[1] : "";
@@ -1031,6 +1089,7 @@ int main(int argc, char** argv)
     if (mode == "order") return mode_order(a, b);
     if (mode == "setup") return mode_setup(a);
     if (mode == "opsym") return mode_opsym(a);
+    if (mode == "concrete") return mode_concrete(a);
     fprintf(stderr, "usage: h_solver cycle|fmg|solve|reuse ...\n");
     return 2;
 }
